@@ -5,6 +5,7 @@ import CorsVerif.Proofs.Accept
 import CorsVerif.Proofs.RoundTrip
 import CorsVerif.Proofs.LexSound
 import CorsVerif.Proofs.NetFacts
+import CorsVerif.Proofs.NetRoundTrip
 /-
   C13 — Origin-pattern grammar: documented forms accepted, documented non-forms rejected.
 
@@ -868,6 +869,50 @@ theorem C13_parse_sound {s : Bytes} {o : Origin} (h : Lex.parse s = some o) :
   parse_serialised h
 
 
+/-- The port a documented port part stands for (`0` = absent, `wildcardPort` = `:*`). -/
+def docPortValue : Spec.DocPort → Nat
+  | .absent => 0
+  | .num ds => Spec.portValue ds
+  | .any => Facts.origins_wildcardPort
+
+open Spec Accept in
+/-- **C13 (acceptance, IPv6 hosts, no oracle).** Take any IPv6 address that is not IPv4-mapped — eight
+16-bit fields `gs` — and write it in its canonical text `Net.render6 gs` (RFC 5952: lower-case hex, no
+leading zeros, the first longest run of two or more zero fields compressed to `::`). The pattern
+`scheme://[text][:port]` with a documented scheme other than `https` and a documented port is accepted
+(IDNA and public-suffix answers play no role), with the text as host value, as a loopback pattern exactly
+for `::1`. The address library is the model of `net/netip` (Model/Net.lean) that the driver uses and
+cross-checks; `Net.fields_render` (parsing the canonical text gives the address back) is what makes the
+statement unconditional. -/
+theorem C13_accept_ipv6_canonical (idna etld : Bytes → Bool) (scheme : Bytes) (port : DocPort) (gs : List Nat)
+    (hlen : gs.length = 8) (hlt : ∀ g ∈ gs, g < 65536) (h4 : Net.is4in6 gs = false)
+    (hs : docScheme scheme = true) (hnh : scheme ≠ Spec.b "https") (hp : docPortOK port = true)
+    (hdef : ({ scheme := scheme, lit := Net.render6 gs, port := port } : DocV6).isDefaultPort = false) :
+    parsePattern (Net.std idna etld) ({ scheme := scheme, lit := Net.render6 gs, port := port } : DocV6).render = .ok
+      { scheme := scheme, value := Net.render6 gs,
+        kind := if gs == [0, 0, 0, 0, 0, 0, 0, 1] then Kind.loopbackIP else Kind.nonLoopbackIP,
+        port := docPortValue port } := by
+  have htext := Net.render6_text gs hlt hlen
+  have hno93 : (Net.render6 gs).contains 93 = false := by
+    cases hc : (Net.render6 gs).contains 93 with
+    | false => rfl
+    | true => exact absurd rfl (Net.textByte_ne (htext 93 (List.contains_iff_mem.mp hc))).2.2.1
+  have hok : ({ scheme := scheme, lit := Net.render6 gs, port := port } : DocV6).ok = true := by
+    simp only [DocV6.ok, hs, hp, hdef, hno93, Bool.true_and, Bool.and_true, Bool.not_false, bne_iff_ne, ne_eq,
+      Bool.and_eq_true, decide_eq_true_eq]
+    exact ⟨hnh, Net.render6_len gs hlen hlt⟩
+  have hmark : firstIPMark (Net.render6 gs) = some 58 :=
+    Net.firstIPMark_colon _ (fun b hb => ⟨(Net.textByte_ne (htext b hb)).2.1, (Net.textByte_ne (htext b hb)).1⟩)
+      (Net.render6_has_colon gs hlen hlt)
+  have := C13_accept_ipv6 (Net.std idna etld) { scheme := scheme, lit := Net.render6 gs, port := port } hok
+    { canon := Net.render6 gs, zone := false, is4in6 := false, loopback := gs == [0, 0, 0, 0, 0, 0, 0, 1] }
+    hmark (Net.ip6_render gs hlen hlt h4) rfl rfl rfl
+  rw [this]
+  cases port <;> rfl
+
+/-- Non-vacuity: `2001:db8::1` is the canonical text of an address that is not IPv4-mapped. -/
+example : Net.render6 [0x2001, 0xdb8, 0, 0, 0, 0, 0, 1] = Spec.b "2001:db8::1" ∧ Net.is4in6 [0x2001, 0xdb8, 0, 0, 0, 0, 0, 1] = false := by decide
+
 /-- **The IPv6 hypothesis of the tree theorems, discharged.** `C01_config`, `C06_roundtrip`, `C15_full` … assume that
 the IPv6 oracle accepts no text starting with `*`. The driver answers IPv6 questions with the model of
 `net/netip` (`Net.ip6`, Model/Net.lean, cross-checked against the library on every host the harness reports),
@@ -905,5 +950,6 @@ example : Net.ip6 (Spec.b "1::2::3") = none := by decide
 #print axioms C13_reject_bad_first_byte
 #print axioms C13_parse_sound
 #print axioms C13_netip_hext
+#print axioms C13_accept_ipv6_canonical
 
 end Cors
